@@ -165,11 +165,32 @@ def run_cases(cases, subcmd="run", env=None, shards=None, args=(), variant="plai
                         results[r["id"]] = r
                     elif "harness_error" in r:
                         meta["harness_errors"].append(r["harness_error"])
+                    elif r.get("harness") == "opcov":
+                        oc = meta.setdefault("opcov", {"names": r.get("names") or [], "interpreted": set(), "native": set()})
+                        for tier_ in ("interpreted", "native"):
+                            for nm, bit in zip(r.get("names") or [], r.get(tier_) or ""):
+                                if bit == "1":
+                                    oc[tier_].add(nm)
                     elif "harness" in r:
                         meta.setdefault("headers", []).append(r)
     if not keep:
         shutil.rmtree(d, ignore_errors=True)
+    _note_opcov(meta.get("opcov"))
     return results, meta
+
+
+# H-cov: union over every harness run of this process of the opcodes the cases drove; Reporter.finish() puts it
+# into the evidence file (what the workload reached, and which opcodes it never reached)
+OPCOV = {"names": [], "interpreted": set(), "native": set()}
+
+
+def _note_opcov(oc):
+    if not oc:
+        return
+    if oc["names"]:
+        OPCOV["names"] = oc["names"]
+    OPCOV["interpreted"] |= oc["interpreted"]
+    OPCOV["native"] |= oc["native"]
 
 
 # ------------------------------------------------------------------------------------------------
@@ -268,6 +289,16 @@ class Reporter:
         self.coverage["known_findings_seen"] = {k: v[1] for k, v in self.known_hits.items()}
         if self.inconclusive:
             self.coverage["inconclusive"] = self.inconclusive
+        if OPCOV["names"]:
+            # H-cov: what the engine runs of this check reached (ephemeral opcodes are never dispatched)
+            names = OPCOV["names"]
+            self.coverage["opcodes"] = {
+                "defined": len(names),
+                "interpreted": len(OPCOV["interpreted"]),
+                "translated_to_native_code": len(OPCOV["native"]),
+                "never_interpreted": [n for n in names if n not in OPCOV["interpreted"]],
+                "interpreted_but_never_translated": [n for n in names if n in OPCOV["interpreted"] and n not in OPCOV["native"]],
+            }
         ev = {
             "property_id": self.prop,
             "tier": self.tier,
